@@ -32,3 +32,13 @@ fire("C73", "device-constructor-creates-tracker-only-when-shots",
 silent("C73", "counting-call-renamed-locals",
        [(_ST, "                qpu_executions, shots = get_num_shots_and_executions(c)\n                if c.shots:\n                    self.tracker.update(\n                        simulations=1,\n                        executions=qpu_executions,\n                        results=r,\n                        shots=shots,",
               "                n_exec, n_shots = get_num_shots_and_executions(c)\n                qpu_executions = n_exec\n                if c.shots:\n                    self.tracker.update(\n                        simulations=1,\n                        executions=qpu_executions,\n                        results=r,\n                        shots=n_shots,")])
+
+# --- R-C73-specs / R-C73-inherit
+fire("C73", "copy-keeps-memoised-specs-when-measurements-change",
+     ("pennylane/core/qscript.py", "        if \"operations\" not in update:\n            # batch size may change if operations were updated\n",
+      "        if \"operations\" not in update:\n            new_qscript._specs = self._specs\n            # batch size may change if operations were updated\n"),
+     "R-C73-specs", "QuantumScript.copy")
+fire("C73", "wrappers-installed-only-for-methods-in-the-class-namespace",
+     ("pennylane/devices/modifiers/simulator_tracking.py", "        if getattr(cls, name) != getattr(Device, name):\n            original = getattr(cls, name)\n            setattr(cls, name, modifier(original))",
+      "        if name in vars(cls):\n            setattr(cls, name, modifier(vars(cls)[name]))"),
+     "R-C73-inherit", "simulator_tracking")
